@@ -60,6 +60,7 @@ pub fn exec_c04(plan: &Plan) -> RunResult {
             guard_alloc: plan.cfg.int("alloc") != 0,
             protect_borrowed: false,
             cover: Cover::C04,
+            keep_unwound: false,
         },
     )
 }
@@ -366,14 +367,35 @@ pub fn gen_c15(rng: &mut Prng, plan: &mut Plan) {
     };
     let policy = rng.below(3) as i128; // 0 mixed, 1 always block-end at guard, 2 always block-start at guard
     let protect = if thorough { rng.chance(1, 2) } else { rng.chance(1, 4) };
-    plan.cfg = Step::new("cfg").i("policy", policy).i("protect", protect as i128);
-    let mut g = Gen::new(rng, &p);
-    plan.steps = g.history();
+    // fault model "unwound operation, object kept" (see Opts::keep_unwound): in half of the plans that contain
+    // documented failures the receiver of the failed operation stays in use
+    let keep = p.unsafe_permille > 0 && rng.chance(1, 2);
+    let p = Profile { unsafe_permille: if keep { 250 } else { p.unsafe_permille }, ..p };
+    plan.cfg = Step::new("cfg").i("policy", policy).i("protect", protect as i128).i("keep", keep as i128);
+    let mut steps = {
+        let mut g = Gen::new(rng, &p);
+        g.history()
+    };
+    if keep {
+        // make sure objects with high zero digits exist: a subtraction that underflows after cancelling all or the
+        // upper digits of its receiver (the shape a plain random history almost never produces)
+        for _ in 0..rng.range(1, 3) {
+            let at = rng.below(steps.len() as u64 + 1) as usize;
+            let v: Vec<u32> = match rng.below(3) {
+                0 => vec![],
+                1 => vec![rng.next_u32()],
+                _ => vec![rng.next_u32(), rng.next_u32(), rng.next_u32() & 1],
+            };
+            steps.insert(at, Step::new("u.unwind").i("d", rng.below(6) as i128).i("k", rng.below(200) as i128).l32("v", &v));
+        }
+    }
+    plan.steps = steps;
 }
 
 pub fn exec_c15(plan: &Plan) -> RunResult {
     // fault-free configuration first: plain allocator
-    let plain = run_history(plan, Opts { c15: true, cover: Cover::C15, ..Default::default() });
+    let keep_unwound = plan.cfg.int("keep") != 0;
+    let plain = run_history(plan, Opts { c15: true, cover: Cover::C15, keep_unwound, ..Default::default() });
     if !plain.violations.is_empty() {
         return plain;
     }
@@ -381,7 +403,7 @@ pub fn exec_c15(plan: &Plan) -> RunResult {
     let before = crate::simalloc::counters();
     let mut guarded = run_history(
         plan,
-        Opts { c15: true, guard_alloc: true, protect_borrowed: plan.cfg.int("protect") != 0, cover: Cover::C15, ..Default::default() },
+        Opts { c15: true, guard_alloc: true, protect_borrowed: plan.cfg.int("protect") != 0, cover: Cover::C15, keep_unwound, ..Default::default() },
     );
     let after = crate::simalloc::counters();
     guarded.reach_n("alloc_guard_end", after.0 - before.0);
